@@ -110,3 +110,71 @@ func (c *Ctx) runVecFactor(r *Report, rule string, pkgs func(string) bool) {
 	}
 	r.inst("layout.vecfactor", n)
 }
+
+// layout.colstride (C07, C03): a matrix is stored column by column; the stride
+// between columns is the alignment of a column vector, i.e. the alignment
+// factor of a vector with as many components as the matrix has ROWS. Every
+// call of a function that is a vector alignment factor table (one
+// ir.VectorSize parameter, its body the table switch of layout.vecfactor) that
+// passes a field of an ir.MatrixType value must pass .Rows - with .Columns the
+// stride is wrong for every matrix with exactly one dimension equal to 2.
+func (c *Ctx) runColStride(r *Report, rule string, pkgs func(string) bool) {
+	// factor-table functions
+	tables := map[*types.Func]bool{}
+	for _, fn := range c.allFuncs() {
+		if fn.Obj == nil {
+			continue
+		}
+		sig := fn.Obj.Type().(*types.Signature)
+		if sig.Params().Len() != 1 || irTypeName(sig.Params().At(0).Type()) != "VectorSize" || sig.Results().Len() != 1 {
+			continue
+		}
+		if len(fn.Decl.Body.List) != 1 {
+			continue
+		}
+		if sw, ok := fn.Decl.Body.List[0].(*ast.SwitchStmt); ok && sw.Tag != nil {
+			if id, ok := ast.Unparen(sw.Tag).(*ast.Ident); ok && fn.Pkg.Info.Uses[id] == sig.Params().At(0) {
+				tables[fn.Obj] = true
+			}
+		}
+	}
+	n := 0
+	for _, fn := range c.allFuncs() {
+		if !pkgs(fn.Pkg.Rel) {
+			continue
+		}
+		info := fn.Pkg.Info
+		ord := 0
+		ast.Inspect(fn.Decl.Body, func(m ast.Node) bool {
+			call, ok := m.(*ast.CallExpr)
+			if !ok || len(call.Args) != 1 {
+				return true
+			}
+			f := calleeOf(info, call)
+			if f == nil || !tables[f.Origin()] {
+				return true
+			}
+			se, ok := ast.Unparen(call.Args[0]).(*ast.SelectorExpr)
+			if !ok {
+				return true
+			}
+			tv, ok := info.Types[se.X]
+			if !ok || irTypeName(tv.Type) != "MatrixType" {
+				return true
+			}
+			n++
+			ord++
+			cons := fn.id() + ":" + f.Name()
+			if ord > 1 {
+				cons += "#" + itoa(ord)
+			}
+			if se.Sel.Name == "Rows" {
+				r.ok(rule, cons, c.pos(call.Pos()), "")
+			} else {
+				r.viol(rule, cons, c.pos(call.Pos()), fn.id()+" takes the alignment factor of "+types.ExprString(call.Args[0])+": the stride between the columns of a matrix is the alignment of a vector with Rows components, not "+se.Sel.Name)
+			}
+			return true
+		})
+	}
+	r.inst("layout.colstride", n)
+}
